@@ -394,7 +394,7 @@ def expand_combinators(prog, d):
         fdef2 = None
         if any(a[0].endswith("@1") for a in acts.values()):
             fdef2 = _closure_def(blocks, default_op)
-            if fdef2 is None or fdef2[1] not in prog.fns:
+            if fdef2 is None or (fdef2[0] == "closure" and fdef2[1] not in prog.fns):
                 continue
         line = t.get("span", {}).get("l0", 0)
         span = t.get("span", {"file": "", "l0": line, "l1": line, "exp": False})
@@ -448,7 +448,7 @@ def expand_combinators(prog, d):
                         cargs = [fop, {"k": "move", "place": {"local": tup, "proj": []}}]
                     else:
                         cargs = args_ops
-                    nb["term"] = {"k": "call", "callee": {"path": fdef[1], "resolved": fdef[1], "is_resolved": True, "local": True, "crate": "", "args": []},
+                    nb["term"] = {"k": "call", "callee": {"path": fdef[1], "resolved": fdef[1], "is_resolved": True, "local": fdef[1] in prog.fns, "crate": "", "args": []},
                                   "args": cargs, "dest": dest, "target": target, "span": span}
                     return
                 res = new_local("?")
@@ -460,7 +460,7 @@ def expand_combinators(prog, d):
                     cargs = args_ops
                 cont = {"cleanup": False, "stmts": [], "term": {"k": "goto", "target": target}, "expanded": key}
                 blocks.append(cont)
-                nb["term"] = {"k": "call", "callee": {"path": fdef[1], "resolved": fdef[1], "is_resolved": True, "local": True, "crate": "", "args": []},
+                nb["term"] = {"k": "call", "callee": {"path": fdef[1], "resolved": fdef[1], "is_resolved": True, "local": fdef[1] in prog.fns, "crate": "", "args": []},
                               "args": cargs, "dest": {"local": res, "proj": []}, "target": len(blocks) - 1, "span": span}
                 cont["stmts"].append({"place": dest, "rv": then_stmt(res), "line": line})
             kind = act[0]
@@ -762,7 +762,7 @@ def lower_lazy_next(prog, d, max_sites=40):
                 cargs = [cp(kf), mv(tup)]
             else:
                 cargs = args_ops
-            blocks[blk]["term"] = {"k": "call", "callee": {"path": fdef[1], "resolved": fdef[1], "is_resolved": True, "local": True, "crate": "", "args": []},
+            blocks[blk]["term"] = {"k": "call", "callee": {"path": fdef[1], "resolved": fdef[1], "is_resolved": True, "local": fdef[1] in prog.fns, "crate": "", "args": []},
                                    "args": cargs, "dest": {"local": dest_local, "proj": []}, "target": nxt, "span": span}
 
         def agg(var, ops):
@@ -901,7 +901,7 @@ def expand_array_from_fn(prog, d):
             cargs = [fop, mv(tup)]
         else:
             cargs = [cp(i)]
-        blocks[body]["term"] = {"k": "call", "callee": {"path": fdef[1], "resolved": fdef[1], "is_resolved": True, "local": True, "crate": "", "args": []},
+        blocks[body]["term"] = {"k": "call", "callee": {"path": fdef[1], "resolved": fdef[1], "is_resolved": True, "local": fdef[1] in prog.fns, "crate": "", "args": []},
                                 "args": cargs, "dest": {"local": v, "proj": []}, "target": after, "span": span}
         blocks[after]["stmts"].append({"place": {"local": dest["local"], "proj": [{"k": "index", "local": i}]}, "rv": {"k": "use", "op": mv(v)}, "line": line})
         blocks[after]["term"] = {"k": "goto", "target": head}
@@ -1101,7 +1101,7 @@ def expand_consumers(prog, d):
             res_ty = "?"
         res = new_local(res_ty or "?", "step")
         after = new_block()
-        blocks[body]["term"] = {"k": "call", "callee": {"path": fdef[1], "resolved": fdef[1], "is_resolved": True, "local": True, "crate": "", "args": []},
+        blocks[body]["term"] = {"k": "call", "callee": {"path": fdef[1], "resolved": fdef[1], "is_resolved": True, "local": fdef[1] in prog.fns, "crate": "", "args": []},
                                 "args": cargs, "dest": {"local": res, "proj": []}, "target": after, "span": span}
 
         def agg(en, var, ops):
